@@ -327,6 +327,12 @@ class AddrmapRun(object):
         _CLOCK.zone = self.zone
         self.n_updates = ch.draw(P.get('max_updates', 25) + 1, 'nupd')
         self.n_advances = ch.draw(P.get('max_advances', 25) + 1, 'nadv')
+        self.long_history = ch.chance(1, P.get('long_every', 12), 'longhistory')
+        if self.long_history:
+            # a map that has been fed for a long time: hundreds of updates for the same few names
+            self.n_updates = 200 + ch.draw(120, 'nlongupd')
+            self.n_advances = 60 + ch.draw(120, 'nlongadv')
+            sim.probe('more-than-200-updates')
         self.n_late_listeners = ch.draw(2, 'late')
         n_listeners = 1 + ch.draw(2, 'nlisteners')
         self.far_ok = sim.gate('expiry-beyond-one-day')
@@ -1016,7 +1022,7 @@ class AddrmapRun(object):
         sim = self.sim
         self.setup()
         self.check_step()
-        budget = self.P.get('max_steps', 400)
+        budget = self.P.get('max_steps', 400) * (12 if self.long_history else 1)
         n = 0
         while n < budget:
             if self.booted and self.n_updates <= 0 and self.n_advances <= 0 and not self.pending:
